@@ -30,6 +30,7 @@ namespace sim
         uint64_t slice_instr = 0;
         int last_slice_ctx = -1;
         int last_result = 0;
+        int64_t run_start_ns = -1;                 // virtual time at which the current/last action::start began
     };
 
     struct Fault
